@@ -10,6 +10,7 @@ failing input: it is shrunk against the real scheduler and reported with a repla
 """
 import json
 import os
+import shutil
 import sys
 import time
 from concurrent.futures import ThreadPoolExecutor
@@ -153,6 +154,19 @@ def outcomes(c, i):
     return [bool(e.get("ok", False)) for e in c["events"] if e["e"] == "e" and e["i"] == i]
 
 
+PREK_TEXT = {0: "$VAR=1 (met)", 1: "$VAR unset (unmet)", 2: "`echo 1`=1 (met)", 3: "`echo 0`=1 (unmet)",
+             4: "`false`='' (exit 1: unmet)", 5: "`true`='' (met)", 6: "`test -e missing`='' (exit 1: unmet)",
+             7: "`print 1; exit 3`=1 (exit 3: unmet)"}
+
+
+def pres_text(s):
+    if s.get("prek"):
+        return " [" + "; ".join(PREK_TEXT.get(k, str(k)) for k in s["prek"]) + "]"
+    if s.get("pres"):
+        return " [" + "; ".join("met" if m else "unmet" for m in s["pres"]) + "]"
+    return ""
+
+
 def py_mon_C02(c):
     for i, s in enumerate(c["steps"]):
         st = c["final"][i]["st"]
@@ -172,7 +186,7 @@ def py_mon_C02(c):
                 return "step %d is '%s' but no dependency justifies that label" % (i, ST[st])
         elif not s["pre"]:
             if a != 0 or st != 5:
-                return "step %d has an unmet precondition but ended '%s' after %d execution(s)" % (i, ST[st], a)
+                return "step %d has an unmet precondition%s but ended '%s' after %d execution(s)" % (i, pres_text(s), ST[st], a)
         elif c["dry"]:
             if a != 0 or st != 4:
                 return "dry run: step %d ended '%s' after %d execution(s)" % (i, ST[st], a)
@@ -392,6 +406,10 @@ def distribution(cases):
             d["retry_exhausted_runs"] += 1
         if any(not s["pre"] for s in c["steps"]):
             d["unmet_precondition_runs"] += 1
+        if any(s.get("prek") for s in c["steps"]):
+            d["backtick_precondition_runs"] = d.get("backtick_precondition_runs", 0) + 1
+            if any(k in (4, 6, 7) for s in c["steps"] for k in (s.get("prek") or [])):
+                d["nonzero_exit_precondition_runs"] = d.get("nonzero_exit_precondition_runs", 0) + 1
         if any(len(s.get("pres") or []) > 1 for s in c["steps"]):
             d["multi_precondition_runs"] = d.get("multi_precondition_runs", 0) + 1
             if any(len(s.get("pres") or []) > 1 and not s["pres"][0] and s["pres"][-1] for s in c["steps"]):
@@ -530,7 +548,58 @@ def agent_dry_part(ctx):
     ctx.cov["agent_dry_runs_total"] = len(acases)
 
 
-def run_family(ctx, pid, replay_cases=None):
+def agent_real_monitor(c, pid):
+    """C02 / C03 on REAL `script:` and command steps with retries, at agent level (node.setupScript / teardown, the real
+    command executor): the step's script fails its first F runs; limit L.  Expected by C02_final_states / C03_exact:
+    F <= L: finished after F+1 runs with retry count F, the dependent runs; otherwise failed after L+1 runs with retry
+    count L, the dependent is canceled and does not run."""
+    if c.get("infra"):
+        return None
+    what = "%s step (fails its first %s run(s), retry limit %d)" % (
+        "`script:`" if c["script"] else "command", "all" if c["fails"] < 0 else c["fails"], c["rlimit"])
+    if c.get("hung"):
+        return "agent run with a %s did not end" % what
+    good = 0 <= c["fails"] <= c["rlimit"]
+    runs = c["fails"] + 1 if good else c["rlimit"] + 1
+    if pid == "C02":
+        if good and (c["s1"] != "finished" or c["s2"] != "finished" or not c["dep_ran"] or c["status"] != "finished"):
+            return ("%s: run %d of the script would succeed, but the step ended '%s' after %d run(s) (retry count %d), its "
+                    "dependent '%s' (%s), the run '%s'" % (what, c["fails"] + 1, c["s1"], c["attempts"], c["s1_retry"], c["s2"],
+                                                       "ran" if c["dep_ran"] else "did not run", c["status"]))
+        if not good and (c["s1"] != "failed" or c["s2"] != "canceled" or c["dep_ran"] or c["status"] != "failed"):
+            return ("%s: every permitted run fails, but the step ended '%s', its dependent '%s' (%s), the run '%s'"
+                    % (what, c["s1"], c["s2"], "ran" if c["dep_ran"] else "did not run", c["status"]))
+    if c["attempts"] != runs or c["s1_retry"] != runs - 1:
+        return ("%s: the script ran %d time(s), retry count %d; its outcome script and limit call for %d run(s), retry count %d "
+                "(step ended '%s')" % (what, c["attempts"], c["s1_retry"], runs, runs - 1, c["s1"]))
+    return None
+
+
+def agent_real_part(ctx, tool, pid):
+    work = os.path.join(ctx.scratch, "agentreal-work")
+    shutil.rmtree(work, ignore_errors=True)
+    os.makedirs(work, exist_ok=True)
+    p = os.path.join(ctx.scratch, "agentreal.jsonl")
+    if os.path.exists(p):
+        os.remove(p)
+    rc, out, dt = vlib.run_tool(tool, [p, "agentreal", work], timeout=150)
+    cases = vlib.read_jsonl(p) if os.path.exists(p) else []
+    shutil.rmtree(work, ignore_errors=True)
+    if rc != 0 or not cases:
+        ctx.fail("correspondence", "agent-level script/retry driver failed", {"log": out[-1500:]})
+        return
+    for c in cases:
+        if c.get("infra"):
+            ctx.notes.append("agentreal case %s not observed: %s" % (c["sub"], c["infra"]))
+        why = agent_real_monitor(c, pid)
+        if why is not None:
+            ctx.fail("monitor", "%s: %s" % (pid, why), c, cls={"kind": "agent-real", "sub": c["sub"], "script": c["script"]})
+    ctx.cov["agent_real_script_runs"] = [{k: c[k] for k in ("script", "fails", "rlimit", "attempts", "s1", "s1_retry", "s2", "dep_ran", "status")}
+                                         for c in cases]
+    ctx.cov["agent_real_script_s"] = round(dt, 1)
+
+
+def run_family(ctx, pid, replay_cases=None, agent_again=False):
     extra = ["Sched/Check.vo"]
     if pid == "C03":
         from props import agent_lib
@@ -596,6 +665,8 @@ def run_family(ctx, pid, replay_cases=None):
     ]
     ctx.assumptions = ["runs without stop request / timeout (those are C04/C05)", "no repeatPolicy steps in the generated DAGs",
                        "Schedule is given a done channel as the agent does in 15 of 16 runs, nil (like the package's tests) in the rest"]
+    if pid in ("C02", "C03") and (replay_cases is None or agent_again):
+        agent_real_part(ctx, tool, pid)
     if pid == "C03" and replay_cases is None:
         dbg("agent dry part")
         agent_dry_part(ctx)
@@ -631,4 +702,6 @@ def replay_family(ctx, pid, path):
         cases.append(body["case"])
     # timing dependent: each case is re-run several times (a replay file may ask for more with "repeat")
     cases = [dict(c) for c in cases for _ in range(int(body.get("repeat", 5)))]
-    return run_family(ctx, pid, replay_cases=cases)
+    # a failure of the agent-level real-process part: that part (fixed cases) is run again
+    again = any(isinstance(f.get("case"), dict) and f["case"].get("class") == "agentreal" for f in body.get("failures", []))
+    return run_family(ctx, pid, replay_cases=cases, agent_again=again)
